@@ -30,7 +30,7 @@ typedef struct pair0_sock pair0_sock;
 static void pair0_pipe_send_cb(void *);
 static void pair0_pipe_recv_cb(void *);
 static void pair0_pipe_fini(void *);
-static void pair0_send_sched(pair0_sock *);
+static void pair0_send_sched(pair0_sock *, pair0_pipe *);
 static void pair0_pipe_send(pair0_pipe *, nni_msg *);
 
 // pair0_sock is our per-socket protocol private structure.
@@ -180,7 +180,7 @@ pair0_pipe_start(void *arg)
 	s->rd_ready = false;
 	nni_mtx_unlock(&s->mtx);
 
-	pair0_send_sched(s);
+	pair0_send_sched(s, p);
 
 	// And the pipe read of course.
 	nni_pipe_recv(p->pipe, &p->aio_recv);
@@ -216,6 +216,16 @@ pair0_pipe_recv_cb(void *arg)
 
 	nni_mtx_lock(&s->mtx);
 
+	if (s->p != p) {
+		// This pipe is no longer the attached peer (it is being
+		// torn down): nobody would ever pick the message up here.
+		nni_mtx_unlock(&s->mtx);
+		nni_aio_set_msg(&p->aio_recv, NULL);
+		nni_msg_free(msg);
+		nni_pipe_close(p->pipe);
+		return;
+	}
+
 	// if anyone is blocking, then the lmq will be empty, and
 	// we should deliver it there.
 	if ((a = nni_list_first(&s->raq)) != NULL) {
@@ -240,7 +250,7 @@ pair0_pipe_recv_cb(void *arg)
 }
 
 static void
-pair0_send_sched(pair0_sock *s)
+pair0_send_sched(pair0_sock *s, pair0_pipe *from)
 {
 	pair0_pipe *p;
 	nni_msg    *m;
@@ -249,7 +259,10 @@ pair0_send_sched(pair0_sock *s)
 
 	nni_mtx_lock(&s->mtx);
 
-	if ((p = s->p) == NULL) {
+	// A completion of a pipe that is not (or no longer) the attached
+	// peer must leave the pairing alone: that pipe is being torn down,
+	// and another one may be sending already.
+	if (((p = s->p) == NULL) || (p != from)) {
 		nni_mtx_unlock(&s->mtx);
 		return;
 	}
@@ -302,7 +315,7 @@ pair0_pipe_send_cb(void *arg)
 		return;
 	}
 
-	pair0_send_sched(p->pair);
+	pair0_send_sched(p->pair, p);
 }
 
 static void
